@@ -6,6 +6,7 @@ package object_patch
 // of the repository).
 
 import (
+	"time"
 	"context"
 	"encoding/json"
 	"fmt"
@@ -160,7 +161,36 @@ func TestVerifConfPatchFile(t *testing.T) {
 			}
 		}
 	}
-	fmt.Printf("CONF-STATS evaluated=%d scope=12 documents (9 valid: 3 create variants, 2 deletes, merge/JSON/jq patch, one with an unknown field; 3 invalid), every stream of 1-2 documents and a third of the streams of 3, rendered as JSON stream and as YAML stream; 7 execution plans against a fake cluster\n", evaluated)
+	// every delete variant removes the object it addresses (name and namespace differ)
+	for _, variant := range []string{"Delete", "DeleteInBackground", "DeleteNonCascading"} {
+		evaluated++
+		cluster := fake.NewFakeCluster(fake.ClusterVersionV119)
+		cluster.CreateNs("default")
+		patcher := NewObjectPatcher(cluster.Client, log.NewNop())
+		stream := docs[0].json + "\n" + fmt.Sprintf(`{"operation":"%s","apiVersion":"v1","kind":"ConfigMap","namespace":"default","name":"a"}`, variant)
+		parsed, err := ParseOperations([]byte(stream))
+		if err != nil {
+			report("patch-plan-rejected", "kube/object_patch.ParseOperations", fmt.Sprintf("create + %s: %v", variant, err))
+			continue
+		}
+		if err := patcher.ExecuteOperations(parsed); err != nil {
+			report("patch-errors-aggregated", "kube/object_patch.(*ObjectPatcher).ExecuteOperations", fmt.Sprintf("create + %s: %v", variant, err))
+		}
+		gvr := cluster.MustFindGVR("v1", "ConfigMap")
+		// background / non-cascading deletes are asynchronous in the fake cluster too: poll briefly
+		gone := false
+		for i := 0; i < 40 && !gone; i++ {
+			if _, gerr := cluster.Client.Dynamic().Resource(*gvr).Namespace("default").Get(context.TODO(), "a", metav1.GetOptions{}); gerr != nil {
+				gone = true
+			} else {
+				time.Sleep(50 * time.Millisecond)
+			}
+		}
+		if !gone {
+			report("patch-delete-variant-misses-object", "kube/object_patch.NewFromOperationSpec", fmt.Sprintf("create default/a, then %s of default/a: the config map is still there", variant))
+		}
+	}
+	fmt.Printf("CONF-STATS evaluated=%d scope=12 documents (9 valid: 3 create variants, 2 deletes, merge/JSON/jq patch, one with an unknown field; 3 invalid), every stream of 1-2 documents and a third of the streams of 3, rendered as JSON stream and as YAML stream; 7 execution plans and the three delete variants against a fake cluster\n", evaluated)
 }
 
 // vcNormalize: numbers decoded from JSON are float64, from YAML int: compare through JSON.
